@@ -135,7 +135,7 @@ PC_DISC = [PC("pc_disconnect_player_contract"), PC("pc_disconnected_event")]
 PC_EVENTS = [PC("pc_event_forwarding_and_cap"), PC("pc_wait_recommendation_respects_cap"), PC("pc_running_iff_all_synchronized")]
 PC_WAIT = [PC("pc_wait_recommendation_gate")]
 PC_CHECKSUM = [PC(n, mem=12) for n in names_in("sessions__p2p_session@calls.rs", "pc_checksum_send_gate_.*")] + [PC("pc_checksum_compare")]
-PC_MISUSE = [PC("pc_misuse_errors", timeout=1200), PC("pc_advance_not_synchronized"), PC("pc_advance_input_missing")]
+PC_MISUSE = [PC("pc_misuse_errors"), PC("pc_set_delay_wrong_handle"), PC("pc_advance_not_synchronized"), PC("pc_advance_input_missing")]
 V_ALL = [H(n, "spect", mem=8, timeout=900, unwindset={"SpectatorSession": 9, "drop_glue": 2})
          for n in names_in("sessions__p2p_spectator_session.rs", "v_advance_.*") if n != "v_advance_r21_behind7_catchup9"] + \
         [H("v_input_event_step", "spect", mem=8, timeout=900),
